@@ -2271,8 +2271,19 @@ class Parser:
         Returns:
             HolographicValue if this is a holographic pattern, None otherwise
         """
-        # Quick check: must have CONSTRAINT token to be holographic
-        has_constraint = any(t.type == TokenType.CONSTRAINT for t in token_slice)
+        # Quick check: must have a CONSTRAINT token outside nested brackets to be holographic
+        # (a constraint operator inside an inner list, e.g. [[A∧B,C]], belongs to that inner
+        # list's item and must not turn the outer list into a pattern).
+        has_constraint = False
+        scan_depth = 0
+        for t in token_slice:
+            if t.type == TokenType.LIST_START:
+                scan_depth += 1
+            elif t.type == TokenType.LIST_END:
+                scan_depth -= 1
+            elif t.type == TokenType.CONSTRAINT and scan_depth == 1:
+                has_constraint = True
+                break
         if not has_constraint:
             return None
 
